@@ -114,11 +114,6 @@ void mmd_transclude_source(DString * source, const char * search_path, const cha
 
 	mmd_engine_free(e, false);
 
-	if (search_folder == NULL) {
-		// We don't have anywhere to search, so nothing to do
-		goto exit;
-	}
-
 	// Make sure we use a parse tree for children
 	stack * parse_stack = parsed;
 
@@ -129,6 +124,11 @@ void mmd_transclude_source(DString * source, const char * search_path, const cha
 
 	// Remember where we currently are in the stack
 	size_t stack_depth = parse_stack->size;
+
+	if (search_folder == NULL) {
+		// We don't have anywhere to search, so nothing to do
+		goto exit;
+	}
 
 	// Iterate through source text, looking for `{{foo}}`
 
